@@ -31,7 +31,11 @@ struct Fault {
     ctx: Ctx,
 }
 
-const FAULTS: [Fault; 17] = [
+const FAULTS: [Fault; 20] = [
+    // both operands of && and || are evaluated (C05): an undefined symbol on either side is an error
+    Fault { name: "undefined-symbol-right-of-false-and", lines: &["ldi r16, 0 && undefined_sym_q"], ctx: Ctx::Code },
+    Fault { name: "undefined-symbol-right-of-true-or", lines: &[".dw 1 || undefined_sym_q"], ctx: Ctx::Data },
+    Fault { name: "undefined-symbol-in-if-right-of-false-and", lines: &[".if 0 && undefined_sym_q", ".endif"], ctx: Ctx::Any },
     Fault { name: "syntax-error", lines: &["!! this is not assembly"], ctx: Ctx::Any },
     Fault { name: "unknown-mnemonic-or-macro", lines: &["frobnicate r1, r2"], ctx: Ctx::Code },
     Fault { name: "register-of-wrong-class", lines: &["ldi r1, 5"], ctx: Ctx::Code },
@@ -194,11 +198,11 @@ pub fn run(tier: Tier) -> i32 {
         }
     };
     let n_msg = AtomicU64::new(0);
-    (0..1024usize).into_par_iter().for_each(|code| {
-        let kinds: Vec<usize> = (0..5).map(|i| (code >> (2 * i)) & 3).collect();
+    (0..4096usize).into_par_iter().for_each(|code| {
+        let kinds: Vec<usize> = (0..6).map(|i| (code >> (2 * i)) & 3).collect();
         // skeleton: (text, slot or none, assembled?)
         let mut lines: Vec<String> = vec![];
-        let mut slot_line: Vec<Option<usize>> = vec![None; 5];
+        let mut slot_line: Vec<Option<usize>> = vec![None; 6];
         let mut add = |s: String| {
             lines.push(s);
         };
@@ -206,6 +210,8 @@ pub fn run(tier: Tier) -> i32 {
             add("; header".into());
         }
         add("ldi r16, 1".into());
+        // slot 5 sits in the body of a macro that is called once, after everything else
+        let macro_slot = slot_text(kinds[5], 5);
         let mut put_slot = |lines: &mut Vec<String>, slot: usize, slot_line: &mut Vec<Option<usize>>| {
             if let Some(t) = slot_text(kinds[slot], slot) {
                 lines.push(t);
@@ -228,9 +234,18 @@ pub fn run(tier: Tier) -> i32 {
         lines.push(".endif".into());
         lines.push("ldi r16, 6".into());
         put_slot(&mut lines, 4, &mut slot_line);
+        lines.push(".macro msg_mac".into());
+        lines.push("ldi r16, 7".into());
+        if let Some(t) = macro_slot.clone() {
+            lines.push(t);
+            slot_line[5] = Some(lines.len());
+        }
+        lines.push(".endm".into());
+        lines.push("msg_mac".into());
+        let macro_call_line = lines.len();
         let text = lines.join("\n") + "\n";
-        let assembled = [true, true, false, true, true];
-        let first_error = (0..5).find(|s| assembled[*s] && kinds[*s] == 3);
+        let assembled = [true, true, false, true, true, true];
+        let first_error = (0..6).find(|s| assembled[*s] && kinds[*s] == 3);
         let o = sut::build_str(&text);
         n_msg.fetch_add(1, Ordering::Relaxed);
         evals.fetch_add(1, Ordering::Relaxed);
@@ -238,16 +253,28 @@ pub fn run(tier: Tier) -> i32 {
         match (&o, first_error) {
             (Outcome::Err(e), Some(s)) => {
                 let ln = slot_line[s].unwrap();
-                if !has_number_token(e, ln) {
+                // inside the macro either the body line or the calling line may be named
+                if !has_number_token(e, ln) && !(s == 5 && has_number_token(e, macro_call_line)) {
                     bad = Some(("error-directive-no-line", format!(".error on line {} is assembled but the failure does not name that line: {}", ln, e)));
                 }
             }
             (Outcome::Ok(_), Some(s)) => bad = Some(("error-directive-ignored", format!(".error in assembled slot {} does not fail the build", s))),
             (Outcome::Err(e), None) => bad = Some(("message-fails-build", format!("no .error is assembled but the build fails: {}", e))),
             (Outcome::Ok(b), None) => {
-                let want_code: Vec<u8> = [1u8, 2, 5, 6].iter().flat_map(|k| vec![0x00 | *k, 0xe0]).collect();
+                let want_code: Vec<u8> = [1u8, 2, 5, 6, 7].iter().flat_map(|k| vec![0x00 | *k, 0xe0]).collect();
+                // the macro slot's message: present exactly once; its place in the list is not
+                // pinned (source order of the body or of the call) and it is left out of the order check
+                let macro_marker = "mk5q";
+                let macro_msgs = b.messages.iter().filter(|m| m.contains(macro_marker)).count();
+                let want_macro = if kinds[5] == 1 || kinds[5] == 2 { 1 } else { 0 };
+                let others: Vec<String> = b.messages.iter().filter(|m| !m.contains(macro_marker)).cloned().collect();
+                let b = &crate::sut::Built { messages: others, ..b.clone() };
+                if macro_msgs != want_macro {
+                    bad = Some(("message-list", format!("the message of the called macro appears {} time(s), expected {}", macro_msgs, want_macro)));
+                }
                 let expected: Vec<(usize, &str, usize)> = (0..5).filter(|s| assembled[*s] && (kinds[*s] == 1 || kinds[*s] == 2)).map(|s| (s, if kinds[s] == 1 { "message" } else { "warning" }, slot_line[s].unwrap())).collect();
-                if b.code != want_code {
+                if bad.is_some() {
+                } else if b.code != want_code {
                     bad = Some(("message-changes-image", format!("image {} differs from the message-free program's {}", sut::hex(&b.code), sut::hex(&want_code))));
                 } else if b.messages.len() != expected.len() {
                     bad = Some(("message-list", format!("{} messages reported, {} .message/.warning lines are assembled: {:?}", b.messages.len(), expected.len(), b.messages)));
@@ -276,14 +303,14 @@ pub fn run(tier: Tier) -> i32 {
     }
     rep.guard(usable.len() >= 20, "fewer than 20 usable corpus programs");
     rep.sample(|| json!({"fault": FAULTS[4].name, "inserted_line_text": FAULTS[4].lines[0], "program": usable[0].0, "leading_comment_lines": SHIFT, "expected": "Err whose text contains the line number of the inserted line"}));
-    rep.sample(|| json!({"message_skeleton_slots": ["top level", "taken .if arm", "untaken .else arm", "taken .else arm", "after .endif"], "each_slot": ["nothing", ".message", ".warning", ".error"], "placements": 1024}));
+    rep.sample(|| json!({"message_skeleton_slots": ["top level", "taken .if arm", "untaken .else arm", "taken .else arm", "after .endif"], "each_slot": ["nothing", ".message", ".warning", ".error"], "sixth_slot": "body of a macro that is called", "placements": 4096}));
     rep.assume("'names that line's number' is decided by a decimal token match on the error text; the corpus keeps numeric literals away from the line-number range (lines are shifted by 700 comment lines)");
     rep.assume("faults are inserted only at live positions (not inside macro bodies, conditional constructs or after .exit), instruction faults only in the code segment");
     rep.assume("for a duplicate label either occurrence may be named");
     let coverage = cov(json!({
         "evaluations": evals.load(Ordering::Relaxed),
         "distinct_nontrivial": work.len(),
-        "rule": "every corpus program x every live line position x 17 kinds of single-line fault (inserted as one line, the rest valid): the build must fail and the error text must contain the decimal token of that line; plus all 4^5 placements of nothing/.message/.warning/.error over five slots (top level, taken arm, untaken arm, taken .else arm, after .endif). distinct_nontrivial = distinct (program, position, fault) triples",
+        "rule": "every corpus program x every live line position x 17 kinds of single-line fault (inserted as one line, the rest valid): the build must fail and the error text must contain the decimal token of that line; plus all 4^6 placements of nothing/.message/.warning/.error over six slots (top level, taken arm, untaken arm, taken .else arm, after .endif, body of a called macro). distinct_nontrivial = distinct (program, position, fault) triples",
         "exhaustive": true,
         "programs": usable.len(),
         "fault_positions": fu,
